@@ -10,7 +10,7 @@ stage id tx feeOk <orders> <omods> <accts> <amods> <matches>
 delorder n
 updorder n <mods>          updorders <ns> <modss>          updacct k <mods>
 complete | discard | reopen | spend
-acctspend k <expiry|multisig|unknown> tx height
+acctspend k <expiry|multisig|unknown|recreate> tx height
 reconnect <err0|err1|mal|fin:tx|finw:tx> <removeOk>
 reconn <first|err|shut> <err0|err1|mal|fin:tx|finw:tx> <removeOk>
 obs
@@ -197,7 +197,7 @@ def drvStep (db : DB) (args : List String) : DB × String :=
     | _, _ => (db, "bad-op")
   | ["acctspend", k, w, tx, h] =>
     let w? : Option Witness := if w == "expiry" then some .expiry else if w == "multisig" then some .multiSig
-      else if w == "unknown" then some .unknown else none
+      else if w == "unknown" then some .unknown else if w == "recreate" then some .multiSigRecreate else none
     match k.toNat?, w?, tx.toNat?, h.toNat? with
     | some k, some w, some tx, some h => doOp db (.accountSpend k w tx h)
     | _, _, _, _ => (db, "bad-op")
